@@ -265,14 +265,41 @@ def files(ctx: Ctx):
                           {'surface': 'file', 'design': d, 'shuffled_table': d2['codon_table']})
 
 
+def mutators(ctx: Ctx):
+    """The codon chosen by ala, stop, aa and snvre for every one of the 64 reference codons, both strands, default and random tables:
+    real get_cds_seq + MutatorCollection.get_variants on exons of eight codons each, against the codon oracle and the Coq model."""
+    from . import c03
+    from .. import codoncheck as cc
+    rng = ctx.rng
+    codons = [a + b + c for a in 'ACGT' for b in 'ACGT' for c in 'ACGT']
+    cases = []
+    default = None
+    for k in range(ctx.n(3, 24)):
+        trows = default if k == 0 else [(r[0], r[1], rank_of(r[3])) for r in gen.gen_codon_table(rng)]
+        for strand in '+-':
+            order = codons[:]
+            rng.shuffle(order)
+            for j in range(0, 64, 8):       # eight codons per exon keeps the model's quadratic de-duplication cheap
+                body = ''.join(order[j:j + 8])
+                if strand == '-':
+                    body = common.revcomp(body)
+                seq = 'GAT' + body + 'TCA'
+                exons = [(4, 27, 0)]
+                cases.append((strand, exons, seq, 4, 27, cc.exon_number_of(exons, strand, 4), ['ala', 'stop', 'aa', 'snvre'], trows))
+    ctx.count('mutator_sweeps', len(cases))
+    c03.api_cases(ctx, cases, what='C17 codon choice of the mutators', control=False, chunk=3)
+
+
 def run(ctx: Ctx):
     tables(ctx)
     loader(ctx)
+    mutators(ctx)
     files(ctx)
     return {'rule': 'S-api: the default table on both strands plus random 64-codon tables (random ranks and row order, sorted by codon, tied ranks, missing codons, '
                     'duplicate codon) through the real CodonTable: translate x64, top/second codon per amino acid (incl. an absent one), synonymous codons x64, '
                     'get_top_codons with excludes; compared with the Coq model and (for tables inside the spec) an independent oracle and a row shuffle; '
-                    'malformed rows through the real loader; S-file: runs with a custom table in two row orders (byte-identical outputs) and malformed tables (refused). '
+                    'malformed rows through the real loader; the codon chosen by ala/stop/aa/snvre for each of the 64 reference codons on both strands under the default and '
+                    'random tables (exons of eight codons, real get_cds_seq + MutatorCollection.get_variants) against the codon oracle and the Coq model; S-file: runs with a custom table in two row orders (byte-identical outputs) and malformed tables (refused). '
                     'Non-trivial = a table inside the spec / a malformed row / a design using codon-level mutators.'}
 
 
@@ -282,7 +309,16 @@ def replay(ctx: Ctx, path: str) -> int:
     c = v.get('case', {})
     common.use_repo()
     bad = False
-    if c.get('surface') == 'api' and 'rows' in c:
+    if c.get('surface') == 'api' and 'case' in c:      # codon choice of the mutators (the eight-codon exons)
+        from . import c03
+        from .. import codoncheck as cc
+        k = c['case']
+        k[1] = [tuple(x) for x in k[1]]
+        k[7] = [tuple(x) for x in k[7]] if k[7] is not None else None
+        res = cc.api_region(tuple(k))
+        exp = cc.oracle_rows(*k)
+        bad = exp is not None and (res[0] != 'ok' or c03.rowset(exp, k[6]) != c03.rowset(res[1], k[6]))
+    elif c.get('surface') == 'api' and 'rows' in c:
         rows = [tuple(r) for r in c['rows']]
         out = impl_lookups((rows, c['rc']))
         bad = out != spec_lookups(rows, c['rc'])
